@@ -88,12 +88,15 @@ THOROUGH_EXTRA = [
 # a setup.py that is at once the preferred manifest (non-empty install_requires) and a source file several codemods rewrite:
 # a dependency written into it by one codemod must survive a later codemod's edit of the same file
 SETUP_PY = b'''import os
+import pickle
 import random
 
 from setuptools import setup
 
 BUILD = str(random.random())
 SIZE = sum([len(p) for p in ("a", "b")])
+# a dependency-adding codemod (fickling) has work in the manifest file itself
+CACHE = pickle.load(open("build.cache", "rb")) if os.path.exists("build.cache") else None
 
 setup(
     name="demo",
@@ -171,6 +174,23 @@ def pair_job_cli(arg):
         if o.error:
             raise core.HarnessError(o.error)
     return {"pair": (k1, k2), "files": files, "batch": lite(b, 0), "chain": [lite(c1, 0), lite(c2, 0)]}
+
+
+def rerun_job(k):
+    """P -K-> s1 -K-> s2 on the collision project (manifests included): the project-level fixed point of C07."""
+    files = project_for(k, k)
+    o = drive.run_inproc(drive.Job(files=files, argv=["{dir}", "--codemod-include", k], runs=2))
+    if o.error:
+        raise core.HarnessError(o.error)
+    return {"codemod": k, "files": files, "runs": [lite(o, 0), lite(o, 1)]}
+
+
+def rerun_job_cli(k):
+    files = project_for(k, k)
+    o = drive.run_cli(drive.Job(files=files, argv=["{dir}", "--codemod-include", k], runs=2))
+    if o.error:
+        raise core.HarnessError(o.error)
+    return {"codemod": k, "files": files, "runs": [lite(o, 0), lite(o, 1)]}
 
 
 def codemods(tier):
